@@ -477,6 +477,16 @@ def run_times(item, only=None):
                     break
             if http_date(x) != s:
                 rep("times:http_date-format", "http_date(%s) = %r, RFC 1123 form is %r" % (x.isoformat(), http_date(x), s), http_date(x), s, {"instant": x.isoformat()})
+        if (y, m, d) == days[0] and only is None:
+            # the query formatter on instants that carry a fraction of a second, before and after 1970 (the second an
+            # instant lies in does not depend on the epoch), in this zone
+            for xx in (datetime(1969, 12, 31, 23, 59, 59, 500000, tzinfo=utc), datetime(1960, 2, 29, 12, 0, 0, 999999, tzinfo=utc), datetime(1970, 1, 1, 0, 0, 0, 1, tzinfo=utc), datetime(1945, 5, 8, 23, 1, 7, 250000, tzinfo=utc), datetime(2019, 3, 10, 9, 59, 59, 999999, tzinfo=utc)):
+                for aware in (xx, xx.astimezone(ptz), xx.astimezone(ztz)):
+                    stats["n"] += 1
+                    back = parse_http_date(http_date(aware), ptz)
+                    if back.astimezone(utc) != xx.replace(microsecond=0):
+                        rep("times:http_date-round-trip:fraction-of-a-second", "parse(http_date(%s)) = %s" % (aware.isoformat(), back.isoformat()), back.isoformat(), xx.replace(microsecond=0).isoformat(), {"instant": xx.isoformat()})
+                        break
         # ... and one time-series document carrying all of them
         if only is None or only.get("ts_day") is not None:
             tsctx = {"ts_day": [y, m, d]}
